@@ -54,6 +54,9 @@ CHECKS = {
  'C05': dict(level='exploration', tech='runtime monitor: conservation checker between the solver output (-Im k), the real sensitivity/heating functions and quadrature over three refinement levels, plus a perturbation (functional-derivative) test of both kernels; a second-integrator noise probe decides which cases are decisive',
              text='Randomised exploration over 1-4 solid layers (+ static-liquid core), Maxwell/Andrade/Burgers rigidities from the real rheology classes, l=2..4, frequencies 1e-7..1e-3, constant and linear profiles, >=70 slices per layer refined twice; the shell-summed radial heating profile is checked against the global rate; Im k <= 0 asserted on every passive body.',
              note='The theorem holds up to first-order discretisation error, so the oracle is convergence under refinement (calibrated criteria in the evidence assumptions); cases whose sensitivity profile is dominated by dense-output interpolation noise are inconclusive.', ref='4/C05'),
+ 'C06': dict(level='exploration', tech='sanitizers + runtime monitor: every call runs in its own interpreter on a clang ASan+UBSan build of the generated C; exit status, sanitizer log, returned object, bit snapshots of the inputs, RLIMIT_CPU step-budget clock and a ctypes/ASan use-after-free probe (valgrind memcheck in the thorough tier) are the observations',
+             text='Enumerates every layer stack of 1-2 (thorough: 1-3) layers including liquid surface layers with both nondimensionalize values, one case per argument fault (about 110 faults), random pairwise fault combinations and result-lifetime probes; the failure protocol (success=False => message, no numeric result, raise_on_fail raises) and input preservation are checked on every exit path.',
+             note='CPython, numpy, LAPACK and CyRK are uninstrumented. "Never hangs" is decided as bounded progress: explicit step budgets <= 1000 may use at most 60 s CPU (>1e4 x slack); wall-clock watchdogs are inconclusive. Seven open known findings (all in .pyx / CyRK).', ref='4/C06'),
 }
 NA = []
 def main():
